@@ -63,6 +63,7 @@ fn gen_file(w: &mut Tape, env: &EnvRef) -> Result<(Syntax, Vec<ds::Elem>, Vec<u8
         encapsulated: syn == Syntax::ExplicitLE,
         all_undefined: false,
         latin1: false,
+        utf8: false,
     };
     let mut model = restrict_to(&ds::gen_dataset(w, &gcfg), syn);
     // pixel data more often than the generic generator gives it
